@@ -479,6 +479,15 @@ def check_step_outcome_single_source(ctx, rule: str) -> None:
             if isinstance(x, ast.Assign) and isinstance(x.targets[0], ast.Name) and isinstance(x.value, ast.Name) and isinstance(lp.target, (ast.Name, ast.Tuple)) and x.value.id in {z.id for z in ast.walk(lp.target) if isinstance(z, ast.Name)}:
                 guard = next((a for a in ancestors(x) if isinstance(a, ast.If) and "isinstance" in src(a.test)), None)
                 recs[x.targets[0].id] = src(guard.test) if guard is not None else "?"
+            # the same record kept as a list in ready order, its first element being the outcome
+            if isinstance(x, ast.Call) and isinstance(x.func, ast.Attribute) and x.func.attr == "append" and isinstance(x.func.value, ast.Name) and x.args and isinstance(x.args[0], ast.Name) and x.args[0].id in {z.id for z in ast.walk(lp.target) if isinstance(z, ast.Name)}:
+                guard = next((a for a in ancestors(x) if isinstance(a, ast.If) and "isinstance" in src(a.test)), None)
+                if guard is not None and "Exception" in src(guard.test):
+                    firsts = [d_ for nm_, ds_ in db.local_defs(ss).items() for d_ in ds_ if isinstance(d_, ast.Assign) and f"{x.func.value.id}[0]" in src(d_.value)]
+                    for d_ in firsts:
+                        recs[d_.targets[0].id] = src(guard.test)
+                    if not firsts:
+                        recs[x.func.value.id] = src(guard.test)
         raises = [r for r in walk_local(ss.node) if isinstance(r, ast.Raise) and r.lineno > lp.end_lineno and r.exc is not None]
         raised = {z.id for r in raises for z in ast.walk(r.exc) if isinstance(z, ast.Name)} & set(recs)
         wide = [v for v, g in recs.items() if "BaseException" in g]
